@@ -65,7 +65,11 @@ impl Parse for Input {
             disallow_token(auto_token)?;
             Ok(Input::Mod(parse_mod(attrs, vis, input)?))
         } else {
-            let fn_sig: syn::Signature = input.parse()?;
+            let mut fn_sig: syn::Signature = input.parse()?;
+            // A leading `unsafe` was consumed above, while looking for `unsafe trait` / `unsafe impl`.
+            if fn_sig.unsafety.is_none() {
+                fn_sig.unsafety = unsafety;
+            }
             let fn_body = input.parse()?;
 
             Ok(Input::Fn(InputFn {
